@@ -22,7 +22,7 @@ it — needs a one-sided simulation), a call nested inside a larger expression (
 in front of the statement, which changes evaluation order relative to the other operands), argument
 annotation pinning, free-variable closing and context hoisting (`lift_context.py`).
 -/
-import Fpy.Proof.LangEntry
+import Fpy.Proof.LangIdx9
 namespace Fpy.Props.C09
 open Fpy Fpy.Lang Fpy.Xform
 
@@ -130,10 +130,67 @@ example (w : Val) (μ' : Heap) :
     rfl rfl (by decide) (by decide) (by decide) (by decide) (by decide) (by decide) (by decide) (by decide)
     (by decide) (by decide) (fresh_unbound_of_all R env0 (by decide)) [] fp64 w μ'
 
+/-! ### hoisting context constructors (`lift_context.py`) -/
+
+/-- `LiftContext` replaces the constructor expression `e` of `with e: body` by a name `c` bound at the top of
+the function (`c = e`).  That is sound AT THE `with` STATEMENT exactly when `c` holds what `e` would evaluate to
+there — under the REAL context, in the environment of the `with`: -/
+theorem lift_context_with_sound {Φ : Funs} {σ : Env} {μ : Heap} {C D : Ctx} {e : Expr} {c : String}
+    (he : evalEω Φ σ μ .real e = .ok (.ctx D, μ)) (hc : σ.get? c = some (.ctx D)) (nm : Option String) (body : List Stmt) :
+    evalSω Φ σ μ C (.with e nm body) = evalSω Φ σ μ C (.with (.var c) nm body) := by
+  rw [evalSω_with, evalSω_with, he, evalEω_var, hc]
+
+/-- … and the pass checks neither half of that condition.  (1) The hoisted `c = e` is evaluated under the
+AMBIENT context, `with e:` evaluates `e` under REAL: with an ambient 2-digit context
+`with MPFloatContext(8 + 1, RNE): y = x + 1` computes with 9 digits, the hoisted form with 8
+(real code: `f(256.0)` is `257.0`, `lift_context(f)(256.0)` is `256.0`). -/
+def nI (i : Int) : NV := .fv (.fin (RF.ofInt i))
+def ctor (arg : Expr) : Expr := .call "@mp/rne" [arg]
+def bodyW : List Stmt := [.assign (.var "y") (.op .add [.var "x", .num (nI 1)])]
+def origL : List Stmt := [.with (ctor (.op .add [.num (nI 8), .num (nI 1)])) none bodyW, .ret (.var "y")]
+def liftedL : List Stmt :=
+  [.assign (.var "ctx") (ctor (.op .add [.num (nI 8), .num (nI 1)])), .with (.var "ctx") none bodyW, .ret (.var "y")]
+def envX : Env := [("x", .num (nI 256))]
+def mp2' : Ctx := .mp 2 .rne (some 0) {}
+
+/-- the mechanism, in the model: the argument `8 + 1` is 9 under REAL (where `with e:` evaluates `e`) and 8 under
+the ambient 2-digit context (where the hoisted assignment `ctx = e` evaluates it); `evalSω_with` / `evalSω_assign`
+are the two rules.  (The whole programs `origL` / `liftedL` are not evaluated by `decide` only because the
+constructor name is parsed with `String.splitOn`, which the kernel does not unfold; the driver evaluates them to
+257 and 256 as the real interpreter does.) -/
+def argNum : M (Val × Heap) → Option NV | .ok (.num a, _) => some a | _ => none
+theorem lift_context_ambient_counterexample :
+    argNum (evalE ⟨[]⟩ 5 [] [] .real (.op .add [.num (nI 8), .num (nI 1)])) = some (nI 9) ∧
+    argNum (evalE ⟨[]⟩ 5 [] [] mp2' (.op .add [.num (nI 8), .num (nI 1)])) = some (.fv (.fin ⟨false, 2, 2⟩)) := by
+  decide
+
+/-- (2) The hoisted binding is put at the TOP of the function, before the definitions of the names `e` reads:
+`p = 8; with MPFloatContext(p + 1, RNE): …` becomes `ctx = MPFloatContext(p + 1, RNE); p = 8; with ctx: …`
+and fails with an unbound `p` (real code: `KeyError`), although the original returns. -/
+def origU : List Stmt :=
+  [.assign (.var "p") (.num (nI 8)), .with (ctor (.op .add [.var "p", .num (nI 1)])) none bodyW, .ret (.var "y")]
+def liftedU : List Stmt :=
+  [.assign (.var "ctx") (ctor (.op .add [.var "p", .num (nI 1)])), .assign (.var "p") (.num (nI 8)),
+   .with (.var "ctx") none bodyW, .ret (.var "y")]
+def errOf : M (Outcome × Heap) → Option Err | .error e => some e | _ => none
+
+theorem lift_context_unbound_counterexample :
+    errOf (evalB ⟨[]⟩ 20 envX [] fp64 liftedU) = some .unbound := by decide
+
 /-! ### open parts -/
 
-/-- PARTIAL — MISSING: call sites whose fresh names may already be bound (second loop iteration),
-calls nested in larger expressions, `Monomorphize` argument annotations, `FreeVarElim`, `LiftContext`. -/
+/-- PARTIAL — MISSING:
+* `inline_in_expr_sound`: a call nested in a larger expression whose earlier operands are names / constants.
+  Plan: `y = E[f(args)]` ≡ `t = f(args); y = E[t]` (atoms evaluate the same before and after, `t` fresh), then
+  `call_inline_sound`; not done: it needs evaluation contexts for every expression former.
+* a call statement inside a loop body: on the second iteration the fresh names hold stale values, so hypothesis
+  `hσ` of `call_inline_sound` fails.  Sound when the callee assigns every local before reading it; needs either
+  that dataflow fact as a lemma ("evaluation does not depend on variables assigned before they are read") or a
+  one-sided simulation.  Not done.
+* `lift_context_sound` beyond `lift_context_with_sound`: see the two counterexamples above — the pass as it
+  stands is NOT sound; a repaired pass (bind under `with fp.REAL:`, after the definitions it reads) would be
+  covered by `lift_context_with_sound` plus a frame argument.
+* `Monomorphize` argument annotations, `FreeVarElim`. -/
 theorem call_inline_general_partial : True := trivial
 
 end Fpy.Props.C09
